@@ -1,6 +1,8 @@
 package rules
 
 import (
+	"go/constant"
+	"go/types"
 	"strings"
 
 	"golang.org/x/tools/go/ssa"
@@ -133,9 +135,12 @@ func c11OnlyMatchedDeleted(r *an.Run) {
 	var replaced ssa.Value
 	for b := range il.Loop.Blocks {
 		for _, in := range b.Instrs {
-			if ex, ok := in.(*ssa.Extract); ok && ex.Index == 1 {
-				if lk, ok := ex.Tuple.(*ssa.Lookup); ok && lk.CommaOk && an.ShortType(lk.X.Type()) == "map[string]struct{}" {
-					replaced = ex
+			// membership of the name in the set of names the '+' imports were added under (either set form)
+			if lk, ok := in.(*ssa.Lookup); ok {
+				if mt, isMap := lk.X.Type().Underlying().(*types.Map); isMap && an.ShortType(mt.Key()) == "string" {
+					for _, mv := range membershipValues(lk) {
+						replaced = mv
+					}
 				}
 			}
 		}
@@ -316,36 +321,37 @@ func c11OnlyPlusAdded(r *an.Run) {
 		// name: empty, or the captured name
 		if len(a) == 4 {
 			nameOK := true
-			phi, isPhi := a[2].(*ssa.Phi)
-			if isPhi {
-				for _, e := range phi.Edges {
-					if s, ok := an.ConstString(e); ok && s == "" {
-						continue
-					}
-					// must derive from r.Name.Replace(...)
-					fromReplacer := false
-					for v := range an.BackSlice(e, an.SliceOpts{ThroughCalls: true}) {
-						if call, ok := v.(*ssa.Call); ok && an.IsCallTo(call, replReplace) && an.Path(an.CallArgs(call)[0]) == "r.Name" {
-							fromReplacer = true
-						}
-					}
-					if !fromReplacer {
-						nameOK = false
+			leaves := valueLeaves(a[2], 0)
+			if len(leaves) < 2 {
+				nameOK = false // a single source: the name cannot be both "none" and "the captured one"
+			}
+			for _, e := range leaves {
+				if s, ok := an.ConstString(e); ok && s == "" {
+					continue
+				}
+				// must derive from r.Name.Replace(...)
+				fromReplacer := false
+				for v := range an.BackSlice(e, an.SliceOpts{ThroughCalls: true}) {
+					if call, ok := v.(*ssa.Call); ok && an.IsCallTo(call, replReplace) && call.Parent().Signature.Recv() != nil && an.Path(an.CallArgs(call)[0]) == call.Parent().Signature.Recv().Name()+".Name" {
+						fromReplacer = true
 					}
 				}
-			} else {
-				nameOK = false
+				if !fromReplacer {
+					nameOK = false
+				}
 			}
 			r.Check(nameOK, short(f)+"|added-name", c.Pos(), "the import is added unnamed, or under the name reproduced by the '+' side's name replacer (the captured name for a metavariable)")
 		}
 	}
 	// Unnamed guard: the name replacer is skipped exactly when the metavariable matched an unnamed import
 	unn := false
-	for _, b := range f.Blocks {
-		if iff, ok := b.Instrs[len(b.Instrs)-1].(*ssa.If); ok {
-			inner, _ := an.StripNot(iff.Cond)
-			if strings.HasSuffix(an.Path(inner), ".Unnamed") {
-				unn = true
+	for _, g := range helperGroup(f, 2) {
+		for _, b := range g.Blocks {
+			if iff, ok := b.Instrs[len(b.Instrs)-1].(*ssa.If); ok {
+				inner, _ := an.StripNot(iff.Cond)
+				if strings.HasSuffix(an.Path(inner), ".Unnamed") {
+					unn = true
+				}
 			}
 		}
 	}
@@ -447,4 +453,145 @@ func optionsLiterals(c ssa.CallInstruction) []*ssa.Alloc {
 		}
 	}
 	return lits
+}
+
+// valueLeaves resolves a value to the values it can be: through phis, through
+// a field of a local struct (what was stored into that field, or the same
+// field of a struct value that was assigned to it whole) and through a field
+// of the struct a module helper returns (what the helper stored into that
+// field of the value it returns).
+func valueLeaves(v ssa.Value, depth int) []ssa.Value {
+	if depth > 8 {
+		return []ssa.Value{v}
+	}
+	switch x := v.(type) {
+	case *ssa.Phi:
+		var out []ssa.Value
+		for _, e := range x.Edges {
+			if e != v {
+				out = append(out, valueLeaves(e, depth+1)...)
+			}
+		}
+		return out
+	case *ssa.UnOp:
+		if fa, ok := x.X.(*ssa.FieldAddr); ok {
+			if al, ok := fa.X.(*ssa.Alloc); ok {
+				if out := fieldLeavesOfLocal(al, fa.Field, x.Type(), depth); len(out) > 0 {
+					return out
+				}
+			}
+		}
+	case *ssa.Field:
+		if out := fieldLeavesOfValue(x.X, x.Field, x.Type(), x.Parent(), depth); len(out) > 0 {
+			return out
+		}
+	}
+	return []ssa.Value{v}
+}
+
+// fieldLeavesOfLocal: the values field k of the local struct variable al can hold.
+func fieldLeavesOfLocal(al *ssa.Alloc, k int, t types.Type, depth int) []ssa.Value {
+	if al.Referrers() == nil {
+		return nil
+	}
+	var out []ssa.Value
+	n := 0
+	for _, u := range *al.Referrers() {
+		switch y := u.(type) {
+		case *ssa.FieldAddr:
+			if y.Field != k || y.Referrers() == nil {
+				continue
+			}
+			for _, w := range *y.Referrers() {
+				if st, ok := w.(*ssa.Store); ok && st.Addr == ssa.Value(y) {
+					n++
+					out = append(out, valueLeaves(st.Val, depth+1)...)
+				}
+			}
+		case *ssa.Store:
+			if y.Addr == ssa.Value(al) { // the struct assigned whole
+				n++
+				out = append(out, fieldLeavesOfValue(y.Val, k, t, al.Parent(), depth+1)...)
+			}
+		}
+	}
+	if n == 0 {
+		return nil
+	}
+	if zeroPossible(al, k) {
+		out = append(out, zeroOf(t, al.Parent()))
+	}
+	return out
+}
+
+// fieldLeavesOfValue: the values field k of the struct value sv can hold.
+func fieldLeavesOfValue(sv ssa.Value, k int, t types.Type, in *ssa.Function, depth int) []ssa.Value {
+	if depth > 8 {
+		return nil
+	}
+	var call *ssa.Call
+	idx := 0
+	switch b := sv.(type) {
+	case *ssa.Const:
+		return []ssa.Value{zeroOf(t, in)}
+	case *ssa.UnOp:
+		if al, ok := b.X.(*ssa.Alloc); ok {
+			out := fieldLeavesOfLocal(al, k, t, depth+1)
+			if len(out) == 0 {
+				out = []ssa.Value{zeroOf(t, in)} // a literal without that field
+			}
+			return out
+		}
+		return nil
+	case *ssa.Phi:
+		var out []ssa.Value
+		for _, e := range b.Edges {
+			out = append(out, fieldLeavesOfValue(e, k, t, in, depth+1)...)
+		}
+		return out
+	case *ssa.Extract:
+		call, _ = b.Tuple.(*ssa.Call)
+		idx = b.Index
+	case *ssa.Call:
+		call = b
+	}
+	if call == nil {
+		return nil
+	}
+	h := an.StaticCallee(call)
+	if h == nil || !an.InModule(h) || h.Blocks == nil {
+		return nil
+	}
+	var out []ssa.Value
+	for _, ret := range an.Returns(h) {
+		if idx < len(ret.Results) {
+			out = append(out, fieldLeavesOfValue(ret.Results[idx], k, t, h, depth+1)...)
+		}
+	}
+	return out
+}
+
+// zeroPossible: the field may still hold its zero value where the struct is
+// read — there is no store to it in the entry block of the function.
+func zeroPossible(al *ssa.Alloc, field int) bool {
+	if al.Referrers() == nil {
+		return true
+	}
+	for _, u := range *al.Referrers() {
+		if fa, ok := u.(*ssa.FieldAddr); ok && fa.Field == field && fa.Referrers() != nil {
+			for _, w := range *fa.Referrers() {
+				if st, ok := w.(*ssa.Store); ok && st.Block() == al.Parent().Blocks[0] {
+					return false
+				}
+			}
+		}
+	}
+	return true
+}
+
+func zeroOf(t types.Type, f *ssa.Function) ssa.Value {
+	if b, ok := t.Underlying().(*types.Basic); ok && b.Info()&types.IsString != 0 {
+		return ssa.NewConst(constant.MakeString(""), t)
+	}
+	return ssa.NewConst(nil, t)
 }
